@@ -41,6 +41,13 @@ def run(repo, rep):
     from . import c02 as _c02
 
     rep.run_borrowed(_c02, {"C02-f": "C12-j"}, repo, only_sites=("propose_weight_buffering", "encode_weight_and_scale_tensor"))
+    from . import c08 as _c08
+
+    # the slice size recorded for the double buffers covers all cores (borrowed from the original lender: nested borrows are not replayed)
+    rep.run_borrowed(_c08, {"C08-e": "C12-j"}, repo, only_sites=("encode_weight_and_scale_tensor",))
+    rep.clause("C12-o", "a usage of length 0 is one time step: LiveRange.mark_usage treats only end < start as empty (a weight buffer marked for its one step stays live) [rule shared with C05-b]; the operators are written in the order the plan was made for: the writer walks the passes")
+    rep.run_borrowed(c05, {"C05-b": "C12-o"}, repo, only_sites=("mark_usage",))
+    rule_writer_order(repo, rep)
     rep.clause("C12-k", "all operators of a cascade are live in one time slot (they run interleaved stripe by stripe): the slot recorded for the cascade is the slot the current operator's tensors were marked with")
     rule_cascade_slot(repo, rep)
     rep.clause("C12-l", "emptiness of consumer lists is tested with len(): the None marker of a subgraph output counts as a consumer (a graph input that is only returned keeps its start-up placeholder and its live range)")
@@ -411,3 +418,24 @@ def rule_cpu_pass_intermediates(repo, rep):
     empty = isinstance(arg, (ast.List, ast.Tuple)) and not arg.elts
     rep.check(not empty, "C12-n", site, "the cascaded pass of a CPU pass lists the tensors between the pass's operators as intermediates",
               "`CascadedPass(.., [], ps.outputs, ..)`: two consecutive CPU RESHAPEs are packed into one MemoryOnly pass; the tensor between them gets no live range and offset 0: it overlaps the live graph input 'keep' [0,4096)")
+
+
+def rule_writer_order(repo, rep):
+    """(o) The arena offsets are computed for the execution order that pass packing produced (`sg.passes`, the order live ranges and the
+    allocators use). TFLiteSerialiser.serialise_subgraph must emit the operators of a CPU subgraph in that order: its operator list is
+    filled by a loop over `sg.passes` / `ps.ops`, not by another traversal of the graph (a depth-first walk is a different topological
+    order as soon as the graph has independent branches)."""
+    tw = repo.mod("tflite_writer")
+    f = tw.func("TFLiteSerialiser.serialise_subgraph")
+    site = "ethosu/vela/tflite_writer.py:TFLiteSerialiser.serialise_subgraph"
+    if f is None:
+        raise AnalysisError("tflite_writer.TFLiteSerialiser.serialise_subgraph not found")
+    apps = [c for c in ast.walk(f) if isinstance(c, ast.Call) and isinstance(c.func, ast.Attribute) and c.func.attr == "append" and str(norm(c.func.value)) == "all_ops"]
+    if not apps:
+        raise AnalysisError("serialise_subgraph: the operator list `all_ops` is not filled by append")
+    for c in apps:
+        loops = [l for l in ast.walk(f) if isinstance(l, ast.For) and any(x is c for x in ast.walk(l))]
+        iters = [str(norm(l.iter)) for l in loops]
+        ok = any(i.endswith(".passes") for i in iters) and any(i.endswith(".ops") for i in iters)
+        rep.check(ok, "C12-o", site, f"`{norm(c)}` inside `for .. in sg.passes: for .. in ps.ops` (loops over {iters})",
+                  f"the operator list is filled from {iters}: a traversal other than the pass order; with two independent branches the offsets (planned for the pass order) put a tensor under one that is still live")
